@@ -159,4 +159,23 @@ func runC19(r *Run) {
 		}
 		r.st.Dist[fmt.Sprintf("concurrent.%dx%d", G, M)] = G * M
 	}
+	// a second handshake on the same context (same or other registered version) does not restart the id sequence
+	for _, v2 := range []uint8{1, 2, 7} {
+		ctx := protocol.NewContext(context.Background(), protocol.ClientSide)
+		ctx.Handshake(&protocol.Handshake{Version: 1, Codec: 1, Platform: 9})
+		var ids []uint32
+		for i := 0; i < 3; i++ {
+			p, _ := protocol.NewRequest(ctx, 5, nil)
+			ids = append(ids, p.Metadata.RequestId)
+		}
+		ctx.Handshake(&protocol.Handshake{Version: v2, Codec: 1, Platform: 9})
+		for i := 0; i < 3; i++ {
+			p, _ := protocol.NewRequest(ctx, 5, nil)
+			ids = append(ids, p.Metadata.RequestId)
+		}
+		if fmt.Sprint(ids) != "[1 2 3 4 5 6]" {
+			r.violate(Violation{What: "request ids of one context are not 1..n in issue order across a second handshake", Case: fmt.Sprintf("handshake v1, 3 requests, handshake v%d, 3 requests", v2), Impl: fmt.Sprint(ids)})
+		}
+		r.st.Evaluations++
+	}
 }
